@@ -35,6 +35,13 @@ DISCM = "msmart.discover."
 
 CLOUDM = "msmart.cloud."
 
+GETTERS = {
+    "C11": [AC + ".power_state", AC + ".fahrenheit", AC + ".target_temperature", AC + ".indoor_temperature", AC + ".outdoor_temperature", AC + ".operational_mode", AC + ".fan_speed", AC + ".swing_mode", AC + ".eco", AC + ".turbo", AC + ".freeze_protection", AC + ".sleep", AC + ".follow_me", AC + ".purifier", AC + ".display_on", AC + ".filter_alert", AC + ".target_humidity", AC + ".indoor_humidity", AC + ".aux_mode", AC + ".beep", AC + ".total_energy_usage", AC + ".current_energy_usage", AC + ".real_time_power_usage", AC + ".supports_eco_mode", AC + ".eco_mode", AC + ".supports_freeze_protection_mode", AC + ".freeze_protection_mode", AC + ".sleep_mode", AC + ".supports_turbo_mode", AC + ".turbo_mode"],
+    "C16": [AC + ".horizontal_swing_angle", AC + ".vertical_swing_angle", AC + ".ieco", AC + ".rate_select", AC + ".self_clean_active"],
+    "C15": [AC + ".min_target_temperature", AC + ".max_target_temperature", AC + ".supported_operation_modes", AC + ".supported_fan_speeds", AC + ".supports_custom_fan_speed", AC + ".supported_swing_modes", AC + ".supports_eco", AC + ".supports_turbo", AC + ".supports_freeze_protection", AC + ".supports_purifier", AC + ".supports_display_control", AC + ".supports_filter_reminder", AC + ".supports_humidity", AC + ".supports_target_humidity", AC + ".supported_rate_selects", AC + ".supported_aux_modes", AC + ".enable_energy_usage_requests", AC + ".use_alternate_energy_format", AC + ".supports_breeze_away", AC + ".supports_breeze_mild", AC + ".supports_breezeless", AC + ".supports_horizontal_swing_angle", AC + ".supports_vertical_swing_angle", AC + ".supports_ieco", AC + ".supports_self_clean"],
+    "C17": [DEVB + ".ip", DEVB + ".port", DEVB + ".id", DEVB + ".type", DEVB + ".name", DEVB + ".sn", DEVB + ".version", DEVB + ".online", DEVB + ".supported"],
+}
+
 PROPS = {
     "C01": {"targets": [LANM + "_LanProtocol.connection_made", LANM + "_LanProtocol.connection_lost", V3 + ".__init__", LANM + "_LanProtocol.__init__", AC + ".__init__", LANC + ".__init__", "C01.spec_decoders_invert", "msmart.lan._LanProtocol.data_received#v2_segmentation",
                         (AC + ".apply", r"c10\.|control_first|noraise"), CMD + "SetStateCommand.tobytes", CMD + "Command.tobytes", "msmart.frame.Frame.tobytes",
@@ -50,7 +57,7 @@ PROPS = {
                         "msmart.lan.Security.udpid", DISCM + "Discover._authenticate_device"],
             "level": "proof"},
     "C17": {"targets": [DISCM + "Discover.discover_single", DISCM + "_DiscoverProtocol.__init__", DISCM + "Discover._get_device_version", DISCM + "Discover._get_device_info#wellformed", DISCM + "Discover._get_device_class",
-                        DISCM + "Discover._get_device", DISCM + "Discover._get_device#wellformed", DISCM + "_DiscoverProtocol._send_discovery", "C17.discovery_probe_is_pinned"],
+                        DISCM + "Discover._get_device", DISCM + "Discover._get_device#wellformed", DISCM + "_DiscoverProtocol._send_discovery", "C17.discovery_probe_is_pinned"] + GETTERS["C17"],
             "level": "proof"},
     "C18": {"targets": [DISCM + "_DiscoverProtocol.__init__", DISCM + "_DiscoverProtocol.datagram_received", DISCM + "Discover._get_device", DISCM + "Discover._get_device_info",
                         DISCM + "Discover._get_device_version"],
@@ -81,7 +88,7 @@ PROPS = {
             "level": "proof"},
     "C11": {"targets": [CMD + "StateResponse._parse_temperature", CMD + "StateResponse._parse", CMD + "StateResponse.__init__",
                         (CMD + "Response.construct", r"dispatch|payload|long_enough|noraise|call\."),
-                        AC + "._update_state#state"],
+                        AC + "._update_state#state"] + GETTERS["C11"],
             "level": "proof"},
     "C12": {"targets": C12_TARGETS + [CMD + "SetPropertiesCommand.__init__", CMD + "SetPropertiesCommand.tobytes",
                                        CMD + "GetPropertiesCommand.__init__", CMD + "GetPropertiesCommand.tobytes",
@@ -92,7 +99,7 @@ PROPS = {
                         "C13.crc_changes", "C13.fixed_up_substitution.char", "C13.fixed_up_substitution_is_dropped", "msmart.frame.Frame.validate", "msmart.frame.Frame.checksum", "msmart.crc8.calculate", "crc8.table", "crc8.step_range",
                         CMD + "Response.validate", CMD + "Response.construct",
                         AC + "._send_command_get_responses", AC + ".refresh#no_valid_response",
-                        AC + "._update_state#other", AC + "._update_state#props"],
+                        AC + "._update_state#other", AC + "._update_state#props"] + [DEVB + ".online", DEVB + ".supported"],
             "level": "proof"},
     "C14": {"targets": [CMD + "Response.construct", CMD + "StateResponse.__init__", CMD + "CapabilitiesResponse.__init__",
                         CMD + "CapabilitiesResponse._parse_capabilities", CMD + "PropertiesResponse.__init__",
@@ -103,13 +110,13 @@ PROPS = {
             "level": "proof"},
     "C15": {"targets": [CMD + "CapabilitiesResponse.fan_silent", CMD + "CapabilitiesResponse.fan_low", CMD + "CapabilitiesResponse.fan_medium", CMD + "CapabilitiesResponse.fan_high", CMD + "CapabilitiesResponse.fan_auto",
                         CMD + "CapabilitiesResponse._parse_capabilities#wf", CMD + "CapabilitiesResponse.merge",
-                        AC + ".get_capabilities", AC + "._update_capabilities"],
+                        AC + ".get_capabilities", AC + "._update_capabilities"] + GETTERS["C15"],
             "level": "proof"},
     "C16": {"targets": [AC + ".__init__", CMD + "PropertyId.encode", CMD + "PropertyId.decode", "C16.read_back", "C16.at_most_one_breeze_mode",
                         AC + ".breeze_away!setter", AC + ".breezeless!setter", AC + ".breeze_mild!setter", AC + ".ieco!setter",
                         AC + ".rate_select!setter", AC + ".horizontal_swing_angle!setter", AC + ".vertical_swing_angle!setter",
                         CMD + "SetPropertiesCommand.__init__", CMD + "SetPropertiesCommand.tobytes",
                         (AC + ".apply", r"c16\.|noraise|call\."), AC + ".apply#quiet_device", AC + "._apply_properties", AC + ".start_self_clean",
-                        (AC + "._update_capabilities", r"props\.|noraise"), AC + "._update_state#props"],
+                        (AC + "._update_capabilities", r"props\.|noraise"), AC + "._update_state#props"] + GETTERS["C16"],
             "level": "proof"},
 }
